@@ -225,6 +225,39 @@ Proof. exact model_holds_registry. Qed.
 Print Assumptions C18_model_holds_registry.
 
 (* ---------------------------------------------------------------------------------------
+   6. the oracles evaluated on observed behaviour decide the stated properties
+   --------------------------------------------------------------------------------------- *)
+(* when the harness' check of an observed restore(adapt(G)) with witness phi succeeds, the
+   observed digraph stands in the relation that C18_nx_roundtrip proves of the model *)
+Theorem C18_oracle_nx_sound : forall G Go phi,
+  nx_wf_b G = true -> nx_guard G = true -> holds_nx_rt G Go phi = true ->
+  nx_wf G /\ nx_name_guard G /\ nx_iso nx_attrs_equal (apply_phi phi) G Go.
+Proof.
+  intros G Go phi Hw Hg H. split; [apply nx_wf_b_sound; exact Hw|].
+  split; [apply nx_guard_sound; exact Hg|]. apply holds_nx_rt_sound; assumption.
+Qed.
+Print Assumptions C18_oracle_nx_sound.
+
+(* same for adapt(restore(g)); the oracle asks for the parents as a set (what the property text
+   says), the theorem C18_opt_roundtrip gives them in order, which is stronger *)
+Theorem C18_oracle_opt_sound : forall g go psi,
+  opt_guard g = true -> holds_opt_rt g go psi = true ->
+  opt_wf g /\ opt_params_guard g /\ opt_iso_weak (fun u => assoc_nat u psi) g go.
+Proof.
+  intros g go psi Hg H. destruct (opt_guard_sound g Hg) as [H1 H2].
+  split; [exact H1|]. split; [exact H2|]. apply holds_opt_rt_sound; assumption.
+Qed.
+Print Assumptions C18_oracle_opt_sound.
+
+Theorem C18_opt_iso_weaken : forall f g g', opt_iso same_name_params f g g' -> opt_iso_weak f g g'.
+Proof. exact opt_iso_weaken. Qed.
+Print Assumptions C18_opt_iso_weaken.
+
+Theorem C18_oracle_fresh_sound : forall n ids, all_fresh n ids = true <-> Forall (fun i => n <= i) ids.
+Proof. exact all_fresh_sound. Qed.
+Print Assumptions C18_oracle_fresh_sound.
+
+(* ---------------------------------------------------------------------------------------
    non-vacuity: the hypotheses are met by non-trivial graphs and the conclusions say something
    --------------------------------------------------------------------------------------- *)
 Definition G_ex : nxg nxattrs :=
